@@ -478,6 +478,17 @@ Qed.
 Lemma filter_drops {A} (p : A -> bool) l x : p x = false -> ~ In x (filter p l).
 Proof. intros Hp Hin. apply filter_In in Hin. destruct Hin as [_ H]. congruence. Qed.
 
+Lemma disabled_child_dropped f k b kids c loc s :
+  eval (stack loc c) (r_enabled b) = Some s -> is_true s = false ->
+  exists n, proc f (Role None k b kids) c loc = Ok n /\
+            node_enabled f n = false /\ onode_kids n = [] /\
+            forall ns, ~ In n (filter (node_enabled f) ns).
+Proof.
+  intros Ev Ht. destruct (disabled_child f k b kids c loc s Ev Ht) as [n [E [Hd Hk]]].
+  exists n. split; [exact E|]. split; [exact Hd|]. split; [exact Hk|].
+  intros ns. apply filter_drops. exact Hd.
+Qed.
+
 (* children of an aggregator: exactly the enabled results of its child templates, in order *)
 Lemma agg_children f b kids c loc s i t :
   eval (stack loc c) (r_enabled b) = Some s -> is_true s = true -> stages c loc b s = Some i ->
